@@ -43,16 +43,24 @@ def gen(rng, seed, stall_secs):
         prev = f'r{i}'
         chain.append(prev)
     stall_at = rng.randint(3, 9)
-    p.sink('K', [{'pub': prev, 'form': rng.choice(['all', 'main', 'star'])}], {'proc_ms': cons_ms, 'stall': {'seq': stall_at, 'secs': stall_secs}})
+    k_inputs = [{'pub': prev, 'form': rng.choice(['all', 'main', 'star'])}]
+    variant = rng.choice(['plain', 'plain', 'plain', 'eph-source-first', 'replica'])
+    if variant == 'eph-source-first':
+        # the stalled consumer also listens to an unrelated publisher through an ephemeral source that is listed FIRST
+        p.source('src2', {'nframes': 10 ** 7, 'proc_ms': [rng.choice([20, 100])], 'topics': ['cam2'], 'content': ['data']})
+        k_inputs = [{'pub': 'src2', 'form': [('cam2', 'cam2')], 'eph': 1}] + k_inputs
+    p.sink('K', k_inputs, {'proc_ms': cons_ms, 'stall': {'seq': stall_at, 'secs': stall_secs}})
     if pos == 'one-of-several':
         for j in range(rng.randint(1, 2)):
-            p.sink(f'o{j}', [{'pub': prev, 'form': 'all'}], {'proc_ms': rng.choice([[0], [20]])})
+            o = p.sink(f'o{j}', [{'pub': prev, 'form': 'all'}], {'proc_ms': rng.choice([[0], [20]])})
+            if variant == 'replica' and j == 0:
+                o['config_id'] = 'K'      # a replica of the stalled consumer: same configured id, own connection
     if required:
         p.require_sync_consumers()
     for n in p.nodes:
         n['start_ms'] = rng.choice([0, 0, rng.randint(0, 200)])
     link = {'max_delay_ms': rng.choice([0, 10, 50, 95]), 'conn_ms': [0, 30], 'sub_ms': [0, 20]}
-    scn = scenarios.finish(p, seed, link, 40000 + stall_secs * 1000, family='stall', gauge=True, pos=pos, required=required, speed=speed,
+    scn = scenarios.finish(p, seed, link, 40000 + stall_secs * 1000, family='stall', gauge=True, variant=variant, pos=pos, required=required, speed=speed,
                            stall_at=stall_at, stall_secs=stall_secs, chain=chain, stop_when_all_done=False)
     must_wait = required or pos != 'one-of-several'
     # the judged window ends at the resume (publisher must wait) or CONN_TIMEOUT after the stall began: stop shortly after
@@ -100,7 +108,10 @@ def judge(w, scn, res):
     dist = {node: j for j, node in enumerate(reversed(chain), 1)}
     for (pub, sub), dmax in w.sim.depth_max.items():
         if sub != 'K':
-            b = BOUND * (dist.get(sub, 0) + 1)
+            # blocked relays above K: 9 per hop of distance; free-running siblings: the tokens circulating between a fast
+            # consumer and a fast publisher saturate around a dozen (duplicate requests at poll timeouts add tokens, collapsed
+            # requests remove them; measured 10 after 10 s, 14 after 300 s and after 1500 s) - bounded by the PUB high-water mark
+            b = BOUND * (dist[sub] + 1) if sub in dist else 20
             res.maxi('queue_depth_other_links', dmax)
             if dmax > b:
                 bad.append(('queue-depth-other', f'{dmax} distinct ids queued from {pub} towards {sub} (bound {b})'))
@@ -108,6 +119,7 @@ def judge(w, scn, res):
     if before >= 3:
         res.nontrivial(f'{scn["pos"]}|{scn["required"]}|{scn["speed"]}|{scn["stall_at"]}|{scn["stall_secs"]}|{w.schedule_signature()}')
     res.count('pos:' + scn['pos'])
+    res.count('variant:' + scn.get('variant', 'plain'))
     res.count('required' if scn['required'] else 'not-required')
     return bad, counts
 
